@@ -10,6 +10,15 @@ pub fn dispatch(kind: &str, case: &Value) -> Result<Option<String>, String> {
         "fp_op" => fp_op(case),
         "fp_eval" => fp_eval(case),
         "fp_const" => fp_const(case),
+        "recover_eval" => recover_eval(case),
+        "recover_case" => recover_case(case),
+        "c04_triples" => c04_triples(case),
+        "c04_ske" => c04_ske(case),
+        "c04_digest" => c04_digest(case),
+        "c03_reuse" => c03_reuse(case),
+        "c03_masking" => c03_masking(case),
+        "adss_scenario" => adss_scenario(case),
+        "c08_decode" => c08_decode(case),
         _ => Err(format!("unknown case kind {:?}", kind)),
     }
 }
@@ -186,5 +195,256 @@ fn fp_const(_case: &Value) -> Result<Option<String>, String> {
         Err(p) => Ok(Some(format!("constant evaluation panicked: {}", p))),
         Ok(bad) if bad.is_empty() => Ok(None),
         Ok(bad) => Ok(Some(format!("field constants: {}", bad.join("; ")))),
+    }
+}
+
+// ---------------------------------------------------------------------------
+// C06 / C02: Sharks::recover on small concrete share lists
+// ---------------------------------------------------------------------------
+fn shares_of(c: &Value) -> Result<Vec<star_sharks::Share>, String> {
+    let mut v = Vec::new();
+    for s in c["shares"].as_array().ok_or("shares")? {
+        // x: small integer, or "hex:<48 hex digits>" = canonical 24-byte little-endian encoding
+        let x = if let Some(h) = s["x"].as_str() {
+            let b: Vec<u8> = (0..24).map(|i| u8::from_str_radix(&h[4 + 2 * i..6 + 2 * i], 16).unwrap_or(0)).collect();
+            let mut a = [0u8; 24];
+            a.copy_from_slice(&b);
+            Option::<Fp>::from(Fp::from_repr(FpRepr(a))).ok_or("x not canonical")?
+        } else {
+            Fp::from(s["x"].as_u64().ok_or("x")?)
+        };
+        let y: Vec<Fp> = s["y"].as_array().ok_or("y")?.iter().map(|e| Fp::from(e.as_u64().unwrap_or(0))).collect();
+        v.push(star_sharks::Share { x, y });
+    }
+    Ok(v)
+}
+fn recover_one(c: &Value) -> Result<Value, String> {
+    let t = c["t"].as_u64().ok_or("t")? as u32;
+    let v = shares_of(c)?;
+    let r = catch(move || {
+        let sh = star_sharks::Sharks(t);
+        sh.recover(&v).map_err(|e| e.to_string())
+    });
+    Ok(match r {
+        Err(p) => Value::String(format!("PANIC:{}", p)),
+        Ok(Err(_)) => Value::String("Err".into()),
+        Ok(Ok(b)) => Value::String(b.iter().map(|x| format!("{:02x}", x)).collect()),
+    })
+}
+fn recover_eval(case: &Value) -> Result<Option<String>, String> {
+    let mut out = Vec::new();
+    for c in case["cases"].as_array().ok_or("cases")? {
+        out.push(recover_one(c)?);
+    }
+    println!("RECOVER_EVAL {}", Value::Array(out));
+    Ok(None)
+}
+fn recover_case(case: &Value) -> Result<Option<String>, String> {
+    let got = recover_one(case)?;
+    if got == case["expect"] {
+        Ok(None)
+    } else {
+        Ok(Some(format!("Sharks({}).recover on {} returns {} but textbook Shamir (first t distinct points, Lagrange at 0 mod 2^128+12451) gives {}",
+            case["t"], case["shares"], got, case["expect"])))
+    }
+}
+
+// ---------------------------------------------------------------------------
+// C04 / C03 / C05 / C16 / C08: scenario replays on the real crates (real Keccak, real RNG)
+// ---------------------------------------------------------------------------
+fn local_rnd(m: &[u8], e: &[u8], t: u32) -> [u8; 32] {
+    let mg = sta_rs::MessageGenerator::new(sta_rs::SingleMeasurement::new(m), t, e);
+    let mut r = [0u8; 32];
+    mg.sample_local_randomness(&mut r);
+    r
+}
+fn u32_of(c: &Value, k: &str) -> u32 {
+    c[k].as_u64().unwrap_or(0) as u32
+}
+
+/// two triples: randomness, tag and key are equal iff the triples are equal
+pub fn c04_triples(case: &Value) -> Result<Option<String>, String> {
+    let (m1, e1, t1) = (get_hex(case, "m1"), get_hex(case, "e1"), u32_of(case, "t1"));
+    let (m2, e2, t2) = (get_hex(case, "m2"), get_hex(case, "e2"), u32_of(case, "t2"));
+    let same = m1 == m2 && e1 == e2 && t1 == t2;
+    let r = catch(move || {
+        let mut bad: Vec<String> = Vec::new();
+        let r1 = local_rnd(&m1, &e1, t1);
+        let r2 = local_rnd(&m2, &e2, t2);
+        if (r1 == r2) != same { bad.push(format!("randomness equal={} but triples equal={}", r1 == r2, same)); }
+        if t1 >= 1 && t2 >= 1 && t1 <= 8 && t2 <= 8 {
+            let a = sta_rs::MessageGenerator::new(sta_rs::SingleMeasurement::new(&m1), t1, &e1).share_with_local_randomness();
+            let b = sta_rs::MessageGenerator::new(sta_rs::SingleMeasurement::new(&m2), t2, &e2).share_with_local_randomness();
+            if let (Ok(a), Ok(b)) = (a, b) {
+                if (a.tag == b.tag) != same { bad.push(format!("tags equal={} but triples equal={}", a.tag == b.tag, same)); }
+                if (a.key == b.key) != same { bad.push(format!("keys equal={} but triples equal={}", a.key == b.key, same)); }
+                if same && a.share.to_bytes()[8..32] == b.share.to_bytes()[8..32] { bad.push("two independent shares have the same point".into()); }
+            }
+        }
+        bad
+    });
+    match r {
+        Err(p) => Ok(Some(format!("panicked: {}", p))),
+        Ok(b) if b.is_empty() => Ok(None),
+        Ok(b) => Ok(Some(b.join("; "))),
+    }
+}
+
+pub fn c04_ske(case: &Value) -> Result<Option<String>, String> {
+    let (r1, e1, r2, e2) = (get_hex(case, "r1"), get_hex(case, "e1"), get_hex(case, "r2"), get_hex(case, "e2"));
+    let same = r1 == r2 && e1 == e2;
+    let mut k1 = [0u8; 16];
+    let mut k2 = [0u8; 16];
+    sta_rs::derive_ske_key(&r1, &e1, &mut k1);
+    sta_rs::derive_ske_key(&r2, &e2, &mut k2);
+    if (k1 == k2) != same {
+        return Ok(Some(format!("derive_ske_key: keys equal={} but (r, epoch) equal={}", k1 == k2, same)));
+    }
+    Ok(None)
+}
+
+pub fn c04_digest(case: &Value) -> Result<Option<String>, String> {
+    let (k1, k2) = (get_hex(case, "k1"), get_hex(case, "k2"));
+    let (a1, a2) = (u32_of(case, "a1") as u8, u32_of(case, "a2") as u8);
+    let same = k1 == k2 && a1 == a2;
+    let mut o1 = [0u8; 32];
+    let mut o2 = [0u8; 32];
+    sta_rs::strobe_digest(&k1, &[&[a1]], "star_derive_randoms", &mut o1);
+    sta_rs::strobe_digest(&k2, &[&[a2]], "star_derive_randoms", &mut o2);
+    if (o1 == o2) != same {
+        return Ok(Some(format!("strobe_digest: outputs equal={} but inputs equal={}", o1 == o2, same)));
+    }
+    Ok(None)
+}
+
+/// two reports of one measurement with different associated data: c1 ^ c2 == p1 ^ p2 ?
+pub fn c03_reuse(case: &Value) -> Result<Option<String>, String> {
+    let (m, e, t) = (get_hex(case, "m"), get_hex(case, "e"), u32_of(case, "t").max(1));
+    let (a1, a2) = (get_hex(case, "aux1"), get_hex(case, "aux2"));
+    if a1 == a2 { return Ok(None); }
+    let mg = sta_rs::MessageGenerator::new(sta_rs::SingleMeasurement::new(&m), t, &e);
+    let mut rnd = [0u8; 32];
+    mg.sample_local_randomness(&mut rnd);
+    let m1 = sta_rs::Message::generate(&mg, &rnd, Some(sta_rs::AssociatedData::new(&a1))).map_err(|e| e.to_string())?;
+    let m2 = sta_rs::Message::generate(&mg, &rnd, Some(sta_rs::AssociatedData::new(&a2))).map_err(|e| e.to_string())?;
+    let (c1, c2) = (m1.ciphertext.to_bytes(), m2.ciphertext.to_bytes());
+    let mut p1 = Vec::new();
+    sta_rs::store_bytes(&m, &mut p1);
+    sta_rs::store_bytes(&a1, &mut p1);
+    let mut p2 = Vec::new();
+    sta_rs::store_bytes(&m, &mut p2);
+    sta_rs::store_bytes(&a2, &mut p2);
+    let n = c1.len().min(c2.len());
+    // positions where the plaintexts differ
+    let diff: Vec<usize> = (0..n).filter(|&i| p1[i] != p2[i]).collect();
+    if diff.is_empty() { return Ok(None); }
+    let from = case["from_offset"].as_u64().unwrap_or(0) as usize;
+    let diff2: Vec<usize> = diff.iter().cloned().filter(|&i| i >= from).collect();
+    if !diff2.is_empty() && diff2.iter().all(|&i| c1[i] ^ c2[i] == p1[i] ^ p2[i]) {
+        return Ok(Some(format!("keystream reuse: c1^c2 == p1^p2 on all {} differing payload bytes from offset {} (two reports of one measurement, aux {:?} vs {:?})", diff2.len(), from, a1, a2)));
+    }
+    Ok(None)
+}
+
+/// payload bytes must not appear verbatim in the ciphertext; decrypt inverts encrypt
+pub fn c03_masking(case: &Value) -> Result<Option<String>, String> {
+    let (key, data) = (get_hex(case, "key"), get_hex(case, "data"));
+    let c = sta_rs::Ciphertext::new(&key, &data, "star_encrypt");
+    let cb = c.to_bytes();
+    if cb.len() != data.len() { return Ok(Some("ciphertext length differs from payload length".into())); }
+    if c.decrypt(&key, "star_encrypt") != data { return Ok(Some("decrypt(encrypt(x)) != x".into())); }
+    let w = 12.min(data.len());
+    if w >= 8 {
+        for o in 0..=(data.len() - w) {
+            if cb[o..o + w] == data[o..o + w] {
+                return Ok(Some(format!("{} payload bytes appear in the clear at ciphertext offset {}", w, o)));
+            }
+        }
+    }
+    Ok(None)
+}
+
+/// honest sharing; optional alteration of the encoded first share; recovery must return an
+/// error or exactly the message (and an error if `must_reject`)
+pub fn adss_scenario(case: &Value) -> Result<Option<String>, String> {
+    let (m, r, t) = (get_hex(case, "m"), get_hex(case, "r"), u32_of(case, "t"));
+    let n = case["n_shares"].as_u64().unwrap_or(t.max(1) as u64) as usize;
+    let must_reject = case["must_reject"].as_bool().unwrap_or(false);
+    let expect_ok = case["expect_ok"].as_bool().unwrap_or(false);
+    let custom = case["custom_transcript"].as_bool().unwrap_or(false);
+    let c2 = case.clone();
+    let res = catch(move || -> Result<Option<String>, String> {
+        let mut shares = Vec::new();
+        for _ in 0..n {
+            let tr = if custom { Some(strobe_rs::Strobe::new(b"other", strobe_rs::SecParam::B128)) } else { None };
+            shares.push(adss::Commune::new(t, m.clone(), r.clone(), tr).share().map_err(|e| e.to_string())?);
+        }
+        // wire round trip
+        for s in &shares {
+            let back = adss::Share::from_bytes(&s.to_bytes());
+            if back.as_ref() != Some(s) { return Ok(Some("decode(encode(share)) != share".into())); }
+        }
+        if let Some(lo) = c2["fault_lo"].as_u64() {
+            let hi = c2["fault_hi"].as_u64().unwrap_or(lo) as usize;
+            let nb = get_hex(&c2, "fault_bytes");
+            let mut e = shares[0].to_bytes();
+            let mut changed = false;
+            for i in lo as usize..hi.min(e.len()) {
+                let v = nb.get(i - lo as usize).cloned().unwrap_or(0);
+                if v != e[i] { changed = true; }
+                e[i] = v;
+            }
+            if !changed { e[lo as usize] ^= 1; }
+            match adss::Share::from_bytes(&e) {
+                None => return Ok(None),
+                Some(f) => shares[0] = f,
+            }
+        }
+        match adss::recover(&shares) {
+            Err(_) => {
+                if expect_ok { Ok(Some(format!("recovery of {} honest shares (t={}) failed", n, t))) } else { Ok(None) }
+            }
+            Ok(c) => {
+                if custom { return Ok(Some("shares made under a different transcript were accepted".into())); }
+                if t == 0 { return Ok(Some("threshold 0 recovered".into())); }
+                if must_reject { return Ok(Some("an altered share field was accepted".into())); }
+                if c.get_message() != m { return Ok(Some("recovery returned a different message".into())); }
+                Ok(None)
+            }
+        }
+    });
+    match res {
+        Err(p) => Ok(Some(format!("panicked: {}", p))),
+        Ok(r) => r,
+    }
+}
+
+/// decoder vs the verdict of the reference parser (computed by the checker)
+pub fn c08_decode(case: &Value) -> Result<Option<String>, String> {
+    let f = case["fn"].as_str().ok_or("fn")?.to_string();
+    let b = get_hex(case, "bytes");
+    let want_accept = case["expect_accept"].as_bool().ok_or("expect_accept")?;
+    let want_canon = case["expect_canon"].as_str().map(|s| s.to_string());
+    let r = catch(move || -> Option<Vec<u8>> {
+        match f.as_str() {
+            "sharks" => star_sharks::Share::try_from(&b[..]).ok().map(|s| Vec::from(&s)),
+            "share" => sta_rs::Share::from_bytes(&b).map(|s| s.to_bytes()),
+            "message" => sta_rs::Message::from_bytes(&b).map(|s| s.to_bytes()),
+            "load_bytes" => adss::load_bytes(&b).map(|c| c.to_vec()),
+            _ => None,
+        }
+    });
+    match r {
+        Err(p) => Ok(Some(format!("decoder panicked: {}", p))),
+        Ok(got) => {
+            if got.is_some() != want_accept {
+                return Ok(Some(format!("decoder {} the input but the layout reference {} it", if got.is_some() { "accepts" } else { "rejects" }, if want_accept { "accepts" } else { "rejects" })));
+            }
+            if let (Some(g), Some(w)) = (got, want_canon) {
+                let gh: String = g.iter().map(|x| format!("{:02x}", x)).collect();
+                if gh != w { return Ok(Some(format!("re-encoding {} differs from the canonical form {}", gh, w))); }
+            }
+            Ok(None)
+        }
     }
 }
